@@ -266,7 +266,16 @@ func oracleC05(p *sim.Plan, out *sim.Outcome) []sim.Violation {
 			case (r.Kind == "cclose" || r.Kind == "bclose") && r.C == ci:
 				if r.Conn == s.connUp && !connClosed[r.Conn] {
 					// end of the attached connection
-					if s.discExp != nil && r.Kind == "cclose" {
+					// the DISCONNECT counts when the client closed after sending it, or when the broker closed the
+					// connection after the packet had been handed to it (a broker may close right after reading a
+					// DISCONNECT) and nothing else was closing that connection at the time
+					discDelivered := false
+					for _, o := range h.Ops {
+						if o.Op.K == "disconnect" && o.Conn == r.Conn && o.Inv >= 0 && o.Inv <= r.Step && !ambiguous[r.Conn] {
+							discDelivered = true
+						}
+					}
+					if s.discExp != nil && (r.Kind == "cclose" || discDelivered) {
 						s.expiry = *s.discExp
 						if s.expiry > cfgExp {
 							// the broker may cap it; both readings are acceptable
